@@ -145,6 +145,8 @@ def acceptLookup (kind idx id s : Nat) (res : Option (Nat × Nat × Nat)) : Stri
   verdict (decide (AsOK kind idx id s res)) "bad-lookup"
 def acceptVlook (kind idx id s : Nat) (res : Option (Nat × Nat × Nat)) : String :=
   verdict (decide (AsOK kind idx id s res)) "bad-allocated-view"
+def acceptVlookDefault (pkind pidx pid vid vmask : Nat) (rd : Nat × Nat) : String :=
+  verdict (decide (DefaultViewOK pkind pidx pid vid vmask rd)) "bad-allocated-default-view"
 def acceptLookupVirtual (id : Nat) (res : Option RegRow) : String :=
   verdict (decide (VirtualLookupOK id res)) "bad-virtual-id-resolves-to-physical"
 def acceptVAs (id s : Nat) (res : Option (Nat × Nat × Nat)) : String :=
@@ -250,6 +252,10 @@ def handle : Handler
   | "accept-vlook" :: kind :: idx :: id :: s :: res => do
     let res ← parseRes res
     some (acceptVlook (← kind.toNat?) (← idx.toNat?) (← id.toNat?) (← s.toNat?) res)
+  | ["accept-vlookdflt", pkind, pidx, pid, vid, vmask, rdid, rdmask] => do
+    some (acceptVlookDefault (← pkind.toNat?) (← pidx.toNat?) (← pid.toNat?) (← vid.toNat?) (← vmask.toNat?)
+      (← rdid.toNat?, ← rdmask.toNat?))
+  | ["accept-vlookdflt", _, _, _, _, _, _] => some "bad-allocated-default-view"
   | ["accept-lookup-junk", id, s, res] => do
     some (acceptJunk (← id.toNat?) (← s.toNat?) (← parseLookup res))
   | ["accept-alloc-fail", _kind, n] => do
@@ -278,6 +284,7 @@ def handle : Handler
 def handlers : List (String × Handler) :=
   ["row", "pas", "vas", "coll", "collrun", "lookupid", "lookupphys", "id", "spec", "accept-reg", "accept-ident", "accept-as",
    "accept-lookup", "accept-lookup-virtual", "accept-vas", "accept-ctor", "accept-fresh", "accept-class", "accept-vclass",
-   "vnew", "accept-vnew", "vlook", "accept-vlook", "accept-lookup-junk", "accept-alloc-fail", "accept-var"].map (·, handle)
+   "vnew", "accept-vnew", "vlook", "accept-vlook", "accept-lookup-junk", "accept-alloc-fail", "accept-var",
+   "accept-vlookdflt"].map (·, handle)
 
 end Avo.Drv.C20
